@@ -202,7 +202,7 @@ func (f *fdb) Write(fn func(db.Batch) error) error {
 	return b.Write()
 }
 
-func (f *fdb) Impl() any                                    { return f.inner.Impl() }
-func (f *fdb) Path() string                                 { return "" }
+func (f *fdb) Impl() any                                      { return f.inner.Impl() }
+func (f *fdb) Path() string                                   { return "" }
 func (f *fdb) WithListener(db.EventListener) db.KeyValueStore { return f }
-func (f *fdb) Close() error                                 { return f.inner.Close() }
+func (f *fdb) Close() error                                   { return f.inner.Close() }
